@@ -97,7 +97,8 @@ def psd_layouts(d, ctx):
         elif mkind == 'bool':
             m = rng.uniform(size=mshape) > 0.4
         elif mkind == 'zero':
-            m = np.zeros(mshape)
+            # all-zero float mask or all-False boolean mask
+            m = np.zeros(mshape, dtype=bool if d.aux(101).integers(0, 2) else float)
         elif mkind == 'sparse':
             m = rng.uniform(0, 1, size=mshape) * (rng.uniform(size=mshape) > 0.7)
             m[..., 0] = 0
@@ -186,6 +187,57 @@ def psd_layouts(d, ctx):
     ctx.nontrivial(mode == 'source' and K >= 2 and (
         layout != 'default' or 'source_dim' in kw or mkind == 'bool'
         or len({T, D, K}) == 3))
+
+
+@subcheck(SUBCHECKS, 'sparse_masks', quick=500, thorough=8000, fuzz=3000)
+def sparse_masks(d, ctx):
+    """masks that select nothing or a single frame, in every dtype the property
+    names (boolean, real), without and with leading axes and a source axis:
+    "zero mask gives a finite, zero matrix"; a single selected frame gives its
+    outer product"""
+    f = _psd()
+    lead = tuple(d.int(1, 3) for _ in range(d.int(0, 2)))
+    D, T = d.int(1, 6), d.int(1, 9)
+    K = d.int(1, 3)
+    with_source = d.bool()
+    normalize = d.bool()
+    dt = d.choice(['bool', 'bool', 'float64', 'float32'])    # the property: float or boolean
+    select = d.choice(['nothing', 'nothing', 'one-frame', 'nothing-in-one-slice'])
+    rng = d.rng()
+    x = gen.cnormal(rng, (*lead, D, T)) * d.log10(-2, 2)
+    mshape = (*lead, K, T) if with_source else (*lead, T)
+    m = np.zeros(mshape)
+    if select == 'one-frame':
+        m[..., d.int(0, T - 1)] = 1
+    elif select == 'nothing-in-one-slice':
+        m[...] = rng.uniform(size=mshape) > 0.5
+        m.reshape(-1, T)[d.int(0, m.size // T - 1)] = 0
+    m = m.astype({'bool': bool, 'float64': np.float64, 'float32': np.float32}[dt])
+    kw = {} if normalize else {'normalize': False}
+    x_in, m_in = np.array(x), np.array(m)
+    x_in.setflags(write=False)
+    m_in.setflags(write=False)
+    got = ctx.lib(f, x_in, m_in, **kw)
+    ctx.describe(lead=lead, D=D, T=T, K=K, source_axis=with_source, dtype=dt,
+                 select=select, normalize=normalize)
+    ctx.label(dt, select, 'source' if with_source else 'plain', f'nlead={len(lead)}')
+    ref_shape = (*lead, K, D, D) if with_source else (*lead, D, D)
+    require(np.shape(got) == ref_shape, 'psd-shape', f'{np.shape(got)} expected {ref_shape}')
+    require(np.all(np.isfinite(got)), 'psd-finite',
+            f'{int(np.sum(~np.isfinite(got)))} non-finite entries for a {dt} mask '
+            f'selecting {select}')
+    ref = np.empty(ref_shape, dtype=np.complex128)
+    for idx in np.ndindex(*lead):
+        if with_source:
+            for k in range(K):
+                ref[idx][k] = ob.psd(x[idx], m[idx][k].astype(float), normalize)
+        else:
+            ref[idx] = ob.psd(x[idx], m[idx].astype(float), normalize)
+    scale = max(float(np.max(np.abs(ref))), 1e-300)
+    require_close(got, ref, 'psd-is-mask-weighted-mean-outer-product',
+                  atol=(1e-5 if dt == 'float32' else 1e-10) * scale + 1e-300,
+                  what=f'{dt} mask selecting {select}', mask='sparse')
+    ctx.nontrivial(select != 'one-frame' or T >= 2)
 
 
 @subcheck(SUBCHECKS, 'condition_covariance', quick=600, thorough=9000)
